@@ -44,6 +44,11 @@ FIXED = [
  ("C01", "namespace names in xmlns declarations are decoded", "a namespace name containing & < or \" (registered through the API) was written raw into xmlns declarations: output not well-formed"),
  ("C05", "append of a text node that becomes the last child", "append(p, t) of a text node t that sits between two other text nodes (adjacent text nodes exist after consolidation was switched off and on again) and is followed by nothing else: the neighbours merged, t became the last child, was merged into itself and removed: its text was lost"),
  ("C13", "compare attribute and namespace nodes by value", "deep_equal / advanced_deep_equal of two attribute nodes or two namespace nodes returned true whatever their names and values (such nodes produce no traversal events)"),
+ ("C03", "parse_bytes panicked on inputs shorter than four bytes", "parse_bytes panicked (Option::unwrap on None in encoding::decode) on every input shorter than four bytes, e.g. parse_bytes(b\"\"), and on an encoding label unknown to encoding_rs"),
+ ("C04", "xml_id_node handed out a removed node", "xml_id_node(doc, id) returned the handle of a removed node after remove / element_unwrap / replace of the element that carried the xml:id (the table is filled at parse time)"),
+ ("C10", "XML serialization of a text node without a parent panicked", "to_string / serialize_xml_string / tokens of a text node without a parent panicked (Option::unwrap on None in XmlSerializer::render_output)"),
+ ("C02", "line ends inside CDATA sections were not normalized", "CR LF and lone CR inside a CDATA section were kept verbatim (<![CDATA[x\\r\\ny]]> gave \"x\\r\\ny\"), the same characters in plain text are normalised to LF"),
+ ("C02", "an empty CDATA section on its own produced an empty text node", "<a><![CDATA[]]></a> parsed into an element with an empty text child (not deep-equal to <a/>, not round-trippable)"),
  ("C13", "shallow_equal_ignore_attributes counts", "shallow_equal_ignore_attributes with a name repeated in the ignore list that b carries: the name was subtracted twice (usize underflow panic in dev, wrong answer in release)"),
 ]
 
